@@ -32,7 +32,7 @@ def dbname(platform):
 
 
 def gen(rng, n_tus=None, n_platforms=None, outside=False, missing=0.0, toggles=True, subdir=True,
-        forced=True, computed=True, big=False, findable=False, deep=0, casepair=False, reguard=False, dirdecoy=False, outside_tu=False, updir=False, links=False):
+        forced=True, computed=True, big=False, findable=False, deep=0, casepair=False, reguard=False, dirdecoy=False, outside_tu=False, updir=False, links=False, oddnames=False):
     """deep=N: the first translation unit also includes a chain of N headers nested N levels deep (each level holds
     code and a macro test; the innermost one defines a macro the translation unit tests afterwards and includes
     ordinary -- possibly missing -- headers).  gcc's nesting limit is 200.
@@ -40,6 +40,9 @@ def gen(rng, n_tus=None, n_platforms=None, outside=False, missing=0.0, toggles=T
     which includes both.
     reguard: a guarded header is included, its guard macro is #undef'ed (and a mode macro defined), and it is included
     again: the body must be read a second time under the new macro state.
+    oddnames: the first translation unit includes a header without a recognised extension (`tab.def`) that includes
+    another one (`tab2.tbl`), a header without any extension (`Dense`), and headers whose names hold letters outside
+    ASCII (`gr\u00f6\u00dfe.h`, `ma\u00df/l\u00e4nge.h` through a search directory).
     updir: some includes are spelled with a leading `../` (`"../inc2/x.h"`): such a name is looked up beside the
     includer and then relative to every search directory, like any other.
     links: a header outside the root (and one inside it) gets a second name inside the root through a file symlink, and
@@ -164,6 +167,15 @@ def gen(rng, n_tus=None, n_platforms=None, outside=False, missing=0.0, toggles=T
             body += [["include", "q", first], ["code"], ["include", "q", second],
                      ["chain", [["ifdef", "CASE_UP", [["code"]]], ["else", None, [["code"]]]]],
                      ["chain", [["ifdef", "CASE_LO", [["code"]]], ["else", None, [["code"]]]]]]
+        if oddnames and t == 0:
+            files[f"{d}/tab.def"] = [["code"], ["include", "q", "tab2.tbl"], ["code"]]
+            files[f"{d}/tab2.tbl"] = [["code"], ["define", "D_ODDEXT", None], ["include", "q", "Dense"], ["code"]]
+            files[f"{d}/Dense"] = [["code"], ["define", "D_NOEXT", None]]
+            files[f"{d}/gr\u00f6\u00dfe.h"] = [["code"], ["define", "D_UMLAUT", None], ["code"]]
+            files["inc/ma\u00df/l\u00e4nge.h"] = [["code"], ["define", "D_UMLAUT2", None]]
+            body += [["include", "q", "tab.def"], ["include", "q", "gr\u00f6\u00dfe.h"], ["include", "a", "ma\u00df/l\u00e4nge.h"]]
+            for mac in ("D_ODDEXT", "D_NOEXT", "D_UMLAUT", "D_UMLAUT2"):
+                body.append(["chain", [["ifdef", mac, [["code"]]], ["else", None, [["code"]]]]])
         if links and t == 0:
             files["@out/ext/olinked.h"] = [["code"], ["define", "D_OLINK", None], ["code"], ["code"]]
             files["inc/ilinked.h"] = [["code"], ["define", "D_ILINK", None], ["code"]]
